@@ -19,6 +19,7 @@ import (
 
 	"verifh/ev"
 	"verifh/pool"
+	"verifh/vsched"
 )
 
 const c09Origin = 5 // history origin (timeslot)
@@ -303,10 +304,121 @@ func init() {
 		s2, t2 := c09Store(run, sd)
 		st.States += s2
 		st.Transitions += t2
-		finishBfs(run, st, "(a) BFS over histories of energy-file edits (append for two slots and a slot before the history origin, values 100/200/sentinel 2/unparseable (sentinel 3)/literal 3/3e9/2^32+100, rewrite, duplicate with another value, reorder, malformed row, remove), send-loop ticks, client restarts and sync rounds against a server that reports nothing received, on the real client; every datagram on the wire is logged; oracle: per slot all datagrams with power not in {0,1} are identical, no history cell ever changes once non-zero, no report for a slot before the origin; (b) BFS (depth 2 quick / 3 thorough) over save sequences of the history store on 8 slots (before the origin, at it, far beyond the end of the file, the largest slot the reader can yield, and slots whose 32-bit byte offset would wrap) x 5 values against a map model; the header must never change")
+		finishBfs(run, st, "(a) BFS over histories of energy-file edits (append for two slots and a slot before the history origin, values 100/200/sentinel 2/unparseable (sentinel 3)/literal 3/3e9/2^32+100, rewrite, duplicate with another value, reorder, malformed row, remove), send-loop ticks, client restarts and sync rounds against a server that reports nothing received, on the real client; every datagram on the wire is logged; oracle: per slot all datagrams with power not in {0,1} are identical, no history cell ever changes once non-zero, no report for a slot before the origin; (b) BFS (depth 2 quick / 3 thorough) over save sequences of the history store on 8 slots (before the origin, at it, far beyond the end of the file, the largest slot the reader can yield, and slots whose 32-bit byte offset would wrap) x 5 values against a map model; the header must never change; (c) every interleaving at file operations of the report loop's conflict check + save against a sync round's scan of three slots on the same history file handle: the occupied slot keeps its value, the different value is refused, every load returns its own cell")
 		run.Coverage["alphabet"] = ops
 		run.Coverage["store_states"] = s2
 		run.Coverage["store_transitions"] = t2
-		return exitCode(run, st)
+		ce, cok := c09Concurrent(run)
+		run.Coverage["schedules"] = ce
+		rc := exitCode(run, st)
+		if !cok && rc == 0 {
+			return 3
+		}
+		return rc
 	}
+}
+
+// ---- the history store under two goroutines ----
+//
+// The report loop (conflict check + save) and a sync round's scan (loads) use the same history file handle at the
+// same time. Every interleaving at file operations: a stored reading is returned unchanged by every load, a
+// different value for an occupied slot is refused, loads of empty slots return 0.
+
+type c09ConcArg struct {
+	Scan []uint32 `json:"scan"` // slots the scanning goroutine loads
+}
+
+func init() {
+	scenarios["c09conc"] = func(raw json.RawMessage) *scenario {
+		var a c09ConcArg
+		json.Unmarshal(raw, &a)
+		return &scenario{Name: "c09conc", Run: func(choose vsched.Chooser) *execOutcome {
+			out := &execOutcome{Res: &vsched.Result{}}
+			resetGlobals()
+			scriptClientRandomness()
+			s0 := mkScripted("S0", 10)
+			cfg := cliConfig{Key: key("kDev"), ShortID: 0, GCA: key("G1").Pub, HistoryOffset: c09Origin,
+				Servers: map[glow.PublicKey]client.GCAServer{s0.Key.Pub: s0.entry()}}
+			w, err := newClientWorld(cfg)
+			if err != nil {
+				out.HarnessErr = err.Error()
+				return out
+			}
+			defer func() { w.Close(); w.Cleanup() }()
+			const slot, first, second = c09Origin + 10, 777, 778
+			if err := w.C.VerifSaveReading(slot, first); err != nil {
+				out.HarnessErr = "set-up save: " + err.Error()
+				return out
+			}
+			var saveErr error
+			var loaded, rechecked uint32
+			scanned := make([]uint32, len(a.Scan))
+			bodies := []func(){
+				func() { // the report loop meets a rewritten row
+					saveErr = w.C.VerifSaveReading(slot, second)
+					loaded, _ = w.C.VerifLoadReading(slot)
+				},
+				func() { // a sync round scans the window
+					for i, s := range a.Scan {
+						scanned[i], _ = w.C.VerifLoadReading(s)
+					}
+				},
+			}
+			res := vsched.Run([]string{"loop", "scan"}, bodies, choose, vsched.Options{PointOnFS: true})
+			out.Res = res
+			for _, p := range res.Panics {
+				out.Violations = append(out.Violations, vio{"conc/panic", p})
+			}
+			if res.Deadlock {
+				out.Violations = append(out.Violations, vio{"conc/deadlock", res.DeadlockInfo})
+			}
+			if len(res.Panics) == 0 && !res.Deadlock {
+				rechecked, _ = w.C.VerifLoadReading(slot)
+				switch {
+				case saveErr == nil:
+					out.Violations = append(out.Violations, vio{"conc/different-value-accepted-for-an-occupied-slot", fmt.Sprintf("save(%d, %d) succeeded although the slot holds %d", slot, second, first)})
+				case loaded != first || rechecked != first:
+					out.Violations = append(out.Violations, vio{"conc/stored-reading-not-returned", fmt.Sprintf("slot %d holds %d, loads returned %d and %d", slot, first, loaded, rechecked)})
+				}
+				for i, s := range a.Scan {
+					want := uint32(0)
+					if s == slot {
+						want = first
+					}
+					if scanned[i] != want {
+						out.Violations = append(out.Violations, vio{"conc/scan-reads-another-cell", fmt.Sprintf("load(%d) returned %d, the cell holds %d", s, scanned[i], want)})
+						break
+					}
+				}
+			}
+			out.Outcome = fmt.Sprintf("save=%v loaded=%d scan=%v", saveErr != nil, loaded, scanned)
+			out.Collided = len(res.Steps) > 0
+			return out
+		}}
+	}
+}
+
+// c09Concurrent explores the scenario and reports into run.
+func c09Concurrent(run *ev.Run) (execs int, ok bool) {
+	p := pool.New(0)
+	a := c09ConcArg{Scan: []uint32{c09Origin + 500, c09Origin + 10, c09Origin + 501}}
+	st, bad := exploreSharded("c09conc", a, -1, 0, 2, p)
+	if st.HarnessErr != "" {
+		fmt.Println("HARNESS ERROR:", st.HarnessErr)
+		run.Count("harness_errors", 1)
+		return st.Executions, false
+	}
+	for _, b := range bad {
+		fmt.Println("HARNESS ERROR (worker):", b.Err, firstLine(b.Panic), b.Timeout)
+		run.Count("harness_errors", 1)
+		return st.Executions, false
+	}
+	for _, v := range st.Violations {
+		run.Violation(v.Sig, map[string]interface{}{"scenario": "c09conc", "arg": a, "schedule": v.Schedule, "detail": v.Detail, "replay": mkReplay("explore1", exploreOneJob{Scenario: "c09conc", Arg: mustJSON(a), Schedule: v.Schedule})})
+	}
+	if st.StepCapHit > 0 || st.CapHit {
+		run.NotExhaustive("execution cap hit in the two-goroutine history scenario")
+	}
+	run.Coverage["history_store_two_goroutines"] = map[string]interface{}{"schedules": st.Executions, "distinct_outcomes": len(st.Outcomes), "longest_schedule": st.MaxSteps}
+	return st.Executions, true
 }
